@@ -9,9 +9,12 @@ import (
 	"fmt"
 	"os"
 	"runtime"
+	"runtime/debug"
+	"runtime/pprof"
 	"sort"
 	"strconv"
 	"sync"
+	"sync/atomic"
 	"time"
 
 	"github.com/piotrnar/gocoin/lib/others/memory"
@@ -148,7 +151,14 @@ func workerMain(args []string) {
 		os.Stdout = dn
 	}
 	t0 := time.Now()
+	if pf := os.Getenv("C20_PPROF"); pf != "" {
+		if f, err := os.Create(pf); err == nil {
+			pprof.StartCPUProfile(f)
+			defer pprof.StopCPUProfile()
+		}
+	}
 	res := &UnitResult{ID: u.ID, Cov: map[string]int{}, Extra: map[string]int64{}}
+	debug.SetGCPercent(400)
 	baseGoroutines = runtime.NumGoroutine()
 	installHook()
 	if !hookWorks() {
@@ -173,6 +183,7 @@ func workerMain(args []string) {
 	}
 	res.Done = true
 	res.WallMs = int(time.Since(t0).Milliseconds())
+	pprof.StopCPUProfile()
 	ob, _ := json.Marshal(res)
 	if err := os.WriteFile(args[1], ob, 0o644); err != nil {
 		fmt.Fprintln(os.Stderr, "worker:", err)
@@ -190,7 +201,7 @@ type mapped struct {
 	maxShared int
 	pages     map[uintptr]struct{}
 	privs     map[uintptr]uintptr // hdr -> length
-	lastPage  uintptr
+	lastPage  atomic.Uintptr
 }
 
 // baseGoroutines is the goroutine count of the idle worker, taken before any
@@ -247,12 +258,17 @@ func newMapped(l Layout, maxShared int) *mapped {
 func (m *mapped) isPrivate(cap int) bool { return cap+hdrLen > m.maxShared }
 
 func (m *mapped) touched(hdr uintptr, cap int) {
+	private := m.isPrivate(cap)
+	pg := hdr &^ (m.lay.PageSize - 1)
+	if !private && m.lastPage.Load() == pg {
+		return // same page as the previous allocation: already a candidate
+	}
 	m.mu.Lock()
-	if m.isPrivate(cap) {
+	if private {
 		m.privs[hdr] = uintptr(cap + hdrLen)
-	} else if pg := hdr &^ (m.lay.PageSize - 1); pg != m.lastPage {
+	} else {
 		m.pages[pg] = struct{}{}
-		m.lastPage = pg
+		m.lastPage.Store(pg)
 	}
 	m.mu.Unlock()
 }
@@ -266,9 +282,7 @@ func (m *mapped) unmapped(addr, size uintptr) {
 	for p := addr &^ (m.lay.PageSize - 1); p < addr+size; p += m.lay.PageSize {
 		if p >= addr {
 			delete(m.pages, p)
-			if p == m.lastPage {
-				m.lastPage = 0
-			}
+			m.lastPage.CompareAndSwap(p, 0)
 		}
 	}
 	if size > m.lay.PageSize {
